@@ -9,8 +9,22 @@ open Gedcom
 
 def Cell.swap (c : Cell) : Cell := ⟨c.b, c.a, c.sim⟩
 
+theorem comparedNames_swap (a b : Str) :
+    comparedNames b a = ((comparedNames a b).2, (comparedNames a b).1) := by
+  unfold comparedNames
+  by_cases h : cleanName a = [] ∧ cleanName b = []
+  · simp [h]
+  · have h' : ¬ (cleanName b = [] ∧ cleanName a = []) := fun hh => h ⟨hh.2, hh.1⟩
+    simp [h, h']
+
+theorem stringSimilarity_comm (a b : Str) (boost : Rat) (p : Nat) :
+    stringSimilarity a b boost p = stringSimilarity b a boost p := by
+  unfold stringSimilarity
+  rw [comparedNames_swap a b]
+  exact jaroWinkler_comm_of_jaro _ _ _ _ (jaro_symm' _ _)
+
 theorem indiSimilarity_symm (x y : Indi) (o : SimOpts) : indiSimilarity x y o = indiSimilarity y x o :=
-  indiSimilarity_comm x y o (fun _ _ _ _ => jaroWinkler_comm_of_jaro _ _ _ _ (jaro_symm' _ _))
+  indiSimilarity_comm x y o (fun _ _ _ _ => stringSimilarity_comm _ _ _ _)
 
 /-! ### the transposed matrix -/
 
